@@ -20,11 +20,16 @@ mkdir -p /tmp/seed-demo-hold; rm -f /tmp/seed-demo-hold/*; for f in $D/*_test.go
 go test -vet=off -count=1 ./$PKG/ > /tmp/seed-existing.txt 2>&1
 EXISTING=$(fails /tmp/seed-existing.txt)
 RES=""
+# the checks below run against the changed tree: what they write must not replace the evidence files
+# (and replay files) of /verif, which describe /repo itself
+rm -rf /tmp/seed-evidence-keep; cp -r /verif/evidence /tmp/seed-evidence-keep
 for P in "$@"; do
   (cd /verif && VERIF_REPO=$W VERIF_BUDGET_S=${BUDGET:-150} bin/check $P ${TIER:-quick} > /tmp/seed-check-$P.txt 2>&1); RC=$?
   LINE=$(grep -m1 "^  " /tmp/seed-check-$P.txt | head -1 | cut -c1-500 | tr '"\\' "'/")
   RES="$RES\"$P\":{\"exit\":$RC,\"first\":\"$LINE\"},"
 done
+rm -rf /verif/evidence; mv /tmp/seed-evidence-keep /verif/evidence
+find /verif/replays -name '*.json' -delete 2>/dev/null
 git -C $W checkout -q -- .
 mv /tmp/seed-demo-hold/*_test.go $W/$PKG/ 2>/dev/null
 go test -vet=off -count=1 ./$PKG/ > /tmp/seed-demo-without.txt 2>&1
